@@ -47,6 +47,17 @@ CHECKS = [
         "Does not decide that both ends succeed under every interleaving (behavioural).",
         "note": BASE_NOTE,
     },
+    {
+        "id": "C09",
+        "technique": "static analysis: future typestate; single-writer rule; exception-effect closure of scheduled callbacks with memo-initialisation flow facts; lock bracket pairing",
+        "text": "Necessary conditions only: decides that no set_result/set_exception in protocol_fsm.py can run on a done/cancelled future "
+        "(cancelled() tested first), that ProtocolContext._state has a single writer, that nothing can escape into the event loop from the "
+        "callbacks/tasks the FSM schedules or from the protocol's notifications (header reads are proven initialised under a fence: commands "
+        "in send_cmd before queueing, packets in pkt_received), that the FSM lock is released on every path and each dequeue is matched by "
+        "task_done(), and that a disconnect resolves the in-flight future with TransportError. Does not decide that the FSM returns to idle "
+        "after every episode, nor that its 'Coding error' self-checks cannot trip (reachability over interleavings).",
+        "note": BASE_NOTE,
+    },
 ]
 
 NOT_APPLICABLE = [
